@@ -138,7 +138,7 @@ func (p *plan) generate(yield func(kase)) {
 
 	emit := func(v *variant, id identity, loggers string, b *build, devs []dev, passes int) {
 		seq++
-		yield(kase{Seq: seq, Route: v.route, Ident: id.Name, Loggers: loggers, Devs: devs, Passes: passes, Req: b.render()})
+		yield(kase{Seq: seq, Route: v.route, Variant: v.name, Ident: id.Name, Loggers: loggers, Devs: devs, Passes: passes, Req: b.render()})
 	}
 
 	only := os.Getenv("C40_ONLY")
@@ -191,6 +191,10 @@ func (p *plan) generate(yield func(kase)) {
 			emit(v, id, "server", base, nil, 2)
 			emit(v, id, "all", base, nil, 2)
 			p.counts["well-formed"] += 2
+
+			if os.Getenv("C40_BASES") != "" {
+				continue
+			}
 
 			// level of this identity: 0 nothing, 1 one value per slot, 2 core values, 3 core + every value of the wide slots, 4 everything
 			level := 0
